@@ -18,7 +18,7 @@ CONSTANTS
   NSet, Heights, NrowSet, Strategies, LevelSet, HdrSet, FootSet, SrcSet, PlaceSet,
   TitleSet, SublineSet, NewPageSet, PbRowSet, PbHdrSet, DivSet,
   FontSet, SizeSet, PaperSet, PgHFSet, PFSet, PLSet, BFSet, BLSet, UTSet, UBSet,
-  NDataSet, GPosSet, RelWSet, HdrWSet, UShapeSet,
+  NDataSet, GPosSet, RelWSet, HdrWSet, UShapeSet, DupSet,
   ReserveDefaultHeader,   \* TRUE: auto-populated header row is reserved
   BudgetContinuation,     \* TRUE: continuation headings at the top of a page are budgeted
   ChargeRenderedOnly,     \* TRUE: only headings that are rendered are charged, once
@@ -36,14 +36,15 @@ Cfg0 == [strat |-> "plain", n |-> 0, h |-> <<>>, nlev |-> 1, chg |-> <<>>, schg 
          title |-> FALSE, subline |-> FALSE,
          font |-> 1, size |-> 9, paper |-> "letter", pghf |-> 0,
          pagefirst |-> "double", pagelast |-> "double", bodyfirst |-> "single", bodylast |-> "single",
-         utop |-> "", ubot |-> "", ndata |-> 2, gpos |-> "first", relwk |-> "equal", hdrw |-> FALSE, ushape |-> "scalar"]
+         utop |-> "", ubot |-> "", ndata |-> 2, gpos |-> "first", relwk |-> "equal", hdrw |-> FALSE, ushape |-> "scalar",
+         dup |-> FALSE]
 
 \* change vectors: chg[r] \in 0..nlev is the outermost page_by level that changes at row r
 ChgVecs(n, L) == IF n = 0 THEN {<<>>} ELSE {[r \in 1..n |-> IF r = 1 THEN 1 ELSE f[r]] : f \in [1..n -> 0..L]}
 BoolVecs(n) == IF n = 0 THEN {<<>>} ELSE {[r \in 1..n |-> IF r = 1 THEN TRUE ELSE f[r]] : f \in [1..n -> BOOLEAN]}
 ConstVec(n, v) == [r \in 1..n |-> v]
 
-NDims == 34
+NDims == 35
 Dim(k, c) ==
   CASE k = 1  -> <<"strat", Strategies>>
     [] k = 2  -> <<"n", NSet>>
@@ -51,7 +52,8 @@ Dim(k, c) ==
     [] k = 4  -> <<"nlev", IF HasPB(c) THEN LevelSet ELSE {1}>>
     [] k = 5  -> <<"chg", {}>>      \* vector dimension
     [] k = 6  -> <<"schg", {}>>     \* vector dimension
-    [] k = 7  -> <<"div", IF HasPB(c) THEN DivSet ELSE {"none"}>>
+    [] k = 7  -> <<"div", IF HasPB(c) THEN DivSet
+                          ELSE IF HasSub(c) /\ "cycle" \in DivSet THEN DivSet \cap {"none", "cycle"} ELSE {"none"}>>
     [] k = 8  -> <<"newpage", IF HasPB(c) THEN NewPageSet ELSE {FALSE}>>
     [] k = 9  -> <<"pbrow", IF HasPB(c) /\ c.newpage THEN PbRowSet ELSE {"column"}>>
     [] k = 10 -> <<"pbhdr", PbHdrSet>>
@@ -79,6 +81,9 @@ Dim(k, c) ==
     [] k = 32 -> <<"relwk", RelWSet>>
     [] k = 33 -> <<"hdrw", IF c.hdr \in {"explicit", "explicit2"} THEN HdrWSet ELSE {FALSE}>>
     [] k = 34 -> <<"ushape", IF c.utop # "" \/ c.ubot # "" THEN UShapeSet ELSE {"scalar"}>>
+    \* dup: the second data column (four times as wide as the first) repeats the first column's text of the NEXT row,
+    \* where it needs one line: row heights are unchanged, but equal texts occur in columns of different width
+    [] k = 35 -> <<"dup", IF c.ndata >= 2 THEN DupSet ELSE {FALSE}>>
 
 ---------------------------------------------------------------------------
 (* paginate: calculate_row_metadata + _assign_pages, as implemented         *)
